@@ -862,7 +862,9 @@ func Check(propID, tier string) int {
 			}
 			code := pr.cmd.ProcessState.ExitCode()
 			if code == 2 {
-				fmt.Fprintf(os.Stderr, "worker %d failed (infrastructure):\n%s\n", w, tail(pr.stderr.String(), 12))
+				if !infra { // one stack is enough
+					fmt.Fprintf(os.Stderr, "worker %d failed (infrastructure):\n%s\n", w, tail(pr.stderr.String(), 14))
+				}
 				infra = true
 				continue
 			}
